@@ -183,7 +183,7 @@ pub fn drive_c13(a: &Args, out: &mut Out) {
         let mut new: Vec<u32> = (0..ln).map(|_| 100 + rng.below(50) as u32).collect();
         let kind = rng.below(4);
         let op = match kind {
-            0 => {
+            0 if rng.chance(1, 2) => {
                 // an equal segment at different offsets: plant it
                 let len = rng.range(0, 4);
                 let seg: Vec<u32> = (0..len).map(|_| 200 + rng.below(5) as u32).collect();
@@ -196,6 +196,16 @@ pub fn drive_c13(a: &Args, out: &mut Out) {
                 DiffOp::Equal {
                     old_index: oi,
                     new_index: ni,
+                    len,
+                }
+            }
+            0 => {
+                // an Equal op over arbitrary sequences (items that compare equal need not be
+                // identical): the expansion must agree with the slice-wise one, taken from old
+                let len = rng.below(old.len().min(new.len()) + 1);
+                DiffOp::Equal {
+                    old_index: rng.below(old.len() - len + 1),
+                    new_index: rng.below(new.len() - len + 1),
                     len,
                 }
             }
